@@ -881,6 +881,37 @@ func checkC20(e *Engine, r *Report) {
 		r.Check(ok && n > 0, "indexer.KVIndexer.IndexBlock › panicking payload accessors only for ante-validated transactions", e.Pos(ib.Pos()), itoa(n)+" accessor call(s), all after the dropped-before-ante test", "IndexBlock decodes the embedded Ethereum payload of a transaction that never reached the ante handler: a malformed payload panics in the indexer goroutine (no recovery) and the node crashes on every restart")
 	})
 
+	r.Rule("R10", "BOUNDS", "log filtering runs in goroutines without panic recovery on user-chosen criteria against user-emitted logs: in the filter matching code every slice index with a non-constant index is entailed to be below the slice length by the comparisons that dominate it (range headers, explicit length tests; transitively: i < len(topics) ≤ len(log.Topics))", 1, func() {
+		n := 0
+		if e.TryFn(pkgFilters, "FilterLogs") == nil {
+			r.Undec("bounds › FilterLogs", "", "function not found")
+		}
+		{
+			fs := e.SrcFuncs(func(p string) bool { return p == pkgFilters })
+			for _, g := range fs {
+				if IsGenerated(e.File(g.Pos())) {
+					continue
+				}
+				allInstrs(g, false, func(_ *ssa.Function, _ *ssa.BasicBlock, in ssa.Instruction) {
+					ia, ok := in.(*ssa.IndexAddr)
+					if !ok {
+						return
+					}
+					if _, isSlice := ia.X.Type().Underlying().(*types.Slice); !isSlice {
+						return
+					}
+					if _, isK := constInt(ia.Index); isK {
+						return
+					}
+					n++
+					coll := ia.X
+					r.Check(indexInBounds(g, ia.Index, coll, ia.Block()), "bounds › "+fnKey(g)+" › "+ia.X.Name()+"["+ia.Index.Name()+"]", e.Pos(ia.Pos()), "index < len entailed by the dominating comparisons", "a slice is indexed although the dominating length tests do not entail index < len: a filter criterion longer than a log's topic list (or an off-by-one in the test) panics in a goroutine without recovery and kills the node")
+				})
+			}
+		}
+		r.Count("indexed_accesses", n)
+	})
+
 	r.Rule("R9", "INIT-BEFORE-GO", "a goroutine started with `go func() {…}()` runs outside every panic recovery of the node (BaseApp's, gRPC's, the JSON-RPC server's): a variable it captures by reference and calls methods on (or dereferences) must be completely assigned before the `go` statement — at least one assignment dominates it and none can follow it — otherwise the goroutine can observe the zero value (nil interface / pointer) and crash the process", 3, func() {
 		n := 0
 		for _, f := range e.SrcFuncs(e.RepoOwned) {
